@@ -67,14 +67,14 @@ ANCHORS = [
     "txtorcon.util:SingleObserver.fire",
 ]
 FLOORS = {
-    "quick": {"evaluations": 500, "events_delivered": 7000, "listener_calls_compared": 4000, "kwargs_compared": 1000,
-              "waits_requested": 2000, "wait_outcomes_judged": 2000, "close_requests": 1500,
-              "close_ack_before_event": 400, "close_event_before_ack": 400, "close_requested_twice": 500,
-              "listeners_added_after_object": 1000, "listeners_removed": 300, "repeat_groups_compared": 200,
-              "histories_with_all_positions": 4,
-              "reach:txtorcon.circuit:Circuit.close": 700, "reach:txtorcon.stream:Stream.close": 700,
-              "reach:txtorcon.circuit:Circuit.when_built": 400, "reach:txtorcon.util:SingleObserver.fire": 3000,
-              "reach:txtorcon.stream:Stream._notify": 3000},
+    "quick": {"evaluations": 350, "events_delivered": 4900, "listener_calls_compared": 2800, "kwargs_compared": 700,
+              "waits_requested": 1400, "wait_outcomes_judged": 1400, "close_requests": 1050,
+              "close_ack_before_event": 250, "close_event_before_ack": 250, "close_requested_twice": 350,
+              "listeners_added_after_object": 700, "listeners_removed": 200, "repeat_groups_compared": 100,
+              "histories_with_all_positions": 3,
+              "reach:txtorcon.circuit:Circuit.close": 450, "reach:txtorcon.stream:Stream.close": 450,
+              "reach:txtorcon.circuit:Circuit.when_built": 250, "reach:txtorcon.util:SingleObserver.fire": 2100,
+              "reach:txtorcon.stream:Stream._notify": 2100},
     "thorough": {"evaluations": 10000, "events_delivered": 150000, "listener_calls_compared": 80000,
                  "waits_requested": 40000, "wait_outcomes_judged": 40000, "close_requests": 30000,
                  "close_ack_before_event": 8000, "close_event_before_ack": 8000, "close_requested_twice": 10000,
@@ -151,8 +151,7 @@ def make_listeners(log):
 # ---------------------------------------------------------------------------
 
 class Wait(object):
-    __slots__ = ("kind", "uid", "okind", "outcome", "pos", "requested", "nth", "order", "superseded",
-                 "reported", "oid")
+    __slots__ = ("kind", "uid", "okind", "outcome", "pos", "requested", "nth", "order", "reported", "oid")
 
     def __init__(self, kind, okind, uid, oid, outcome, pos, requested):
         self.kind = kind            # when_built when_closed circuit.close stream.close state.close_circuit state.close_stream
@@ -164,7 +163,6 @@ class Wait(object):
         self.requested = requested  # structural description of the moment of the request
         self.nth = 1
         self.order = None
-        self.superseded = False
         self.reported = set()
 
 
@@ -463,12 +461,8 @@ class Engine(object):
         w = Wait(kind, okind, uid, oid, o, self.pos, requested)
         same = [x for x in self.waits if x.kind == kind and x.uid == uid]
         w.nth = len(same) + 1
-        if kind == "stream.close" or kind == "circuit.close":
-            for x in same:
-                if x.requested.startswith("live") and requested.startswith("live"):
-                    x.superseded = True
-            if same:
-                self.count("close_requested_twice")
+        if kind in ("stream.close", "circuit.close") and same:
+            self.count("close_requested_twice")
         self.waits.append(w)
         self.count("waits_requested")
         self.count("requested:" + kind)
@@ -576,6 +570,10 @@ class Engine(object):
                                       "upper-case-missing" if not miss_lo else "both-cases-missing"),
                            {"event": ev.text, "kwargs": dict(kw), "missing_upper": miss_up, "missing_lower": miss_lo})
         self.compared += len(want) + len(got)
+        if self.rec is not None:
+            for (okind, l, method, uid, extra) in want:
+                self.rec.seen("notifications_owed", "%s to listener %s" % (
+                    method, self.reg[okind].get(uid, {}).get(l, "?")))
         self.count("listener_calls_expected", sum(want.values()))
         self.count("listener_calls_observed", sum(got.values()))
         self.count("listener_calls_compared", sum(min(want.get(k, 0), got.get(k, 0)) for k in want))
@@ -965,6 +963,6 @@ def replay(case, rec):
 
 def plan(tier, seed):
     if tier == "quick":
-        return [{"mode": "random", "n": 330} for _ in range(11)] + [{"mode": "positions", "n": 500} for _ in range(4)]
+        return [{"mode": "random", "n": 240} for _ in range(11)] + [{"mode": "positions", "n": 360} for _ in range(4)]
     return ([{"mode": "random", "n": 3000, "timeout_s": 3000} for _ in range(24)]
             + [{"mode": "positions", "n": 5000, "timeout_s": 3000} for _ in range(12)])
